@@ -45,6 +45,12 @@ type Result struct {
 	// outside $first, and whether $first aliases one of them
 	DistinctObjs int
 	FirstAliased bool
+	NonFirst     int
+	// the raw results, for handing back through the Collect helpers (S-pool)
+	RawMap  z.ZogIssueMap
+	RawList z.ZogIssueList
+	// a callback saw a context value that this call did not set
+	CtxLeak string
 }
 
 func issOf(i *z.ZogIssue) Iss {
@@ -139,8 +145,7 @@ func RunTwice(c *Case) (first, second *Result, inputChanged string) {
 	if c.Mode == "p" && before != after && c.Input.K != "x" {
 		inputChanged = "before " + before + " after " + after
 	}
-	rec2 := NewRecorder()
-	*rec = *rec2
+	rec.Events, rec.Order, rec.OrderPaths, rec.CtxLeak = nil, map[string][]string{}, nil, ""
 	second = runOn(schema, c, rec, data)
 	return
 }
@@ -164,16 +169,24 @@ func (c *Case) execOpts() (opts []z.ExecOption, restore func()) {
 }
 
 func runOn(schema z.ZogSchema, c *Case, rec *Recorder, data any) (res *Result) {
+	return runOnOpt(schema, c, rec, data, true)
+}
+
+func runOnOpt(schema z.ZogSchema, c *Case, rec *Recorder, data any, hook bool) (res *Result) {
 	res = &Result{}
+	var rawList z.ZogIssueList
+	ltm := func(l z.ZogIssueList) map[string][]Iss { rawList = l; return listToMap(l) }
 	opts, restore := c.execOpts()
 	defer restore()
-	p.VerifFieldHook = func(path, key string) {
-		if _, ok := rec.Order[path]; !ok {
-			rec.OrderPaths = append(rec.OrderPaths, path)
+	if hook {
+		p.VerifFieldHook = func(path, key string) {
+			if _, ok := rec.Order[path]; !ok {
+				rec.OrderPaths = append(rec.OrderPaths, path)
+			}
+			rec.Order[path] = append(rec.Order[path], key)
 		}
-		rec.Order[path] = append(rec.Order[path], key)
+		defer func() { p.VerifFieldHook = nil }()
 	}
-	defer func() { p.VerifFieldHook = nil }()
 	dest := reflect.New(c.Schema.GoType())
 	SetD(c.Schema, dest.Elem(), c.Dest)
 	defer func() {
@@ -187,7 +200,8 @@ func runOn(schema z.ZogSchema, c *Case, rec *Recorder, data any) (res *Result) {
 		if c.Mode == "p" {
 			m := s.Parse(data, dest.Interface(), opts...)
 			im = mapToMap(m)
-			res.DistinctObjs, res.FirstAliased = identityFacts(m)
+			res.RawMap = m
+			res.DistinctObjs, res.FirstAliased, res.NonFirst = identityFacts(m)
 		} else {
 			var m z.ZogIssueMap
 			switch cs := s.(type) {
@@ -199,79 +213,84 @@ func runOn(schema z.ZogSchema, c *Case, rec *Recorder, data any) (res *Result) {
 				m = cs.Validate(dest.Interface(), opts...)
 			}
 			im = mapToMap(m)
-			res.DistinctObjs, res.FirstAliased = identityFacts(m)
+			res.RawMap = m
+			res.DistinctObjs, res.FirstAliased, res.NonFirst = identityFacts(m)
 		}
 	case *z.StringSchema[string]:
 		if c.Mode == "p" {
-			im = listToMap(s.Parse(data, dest.Interface().(*string), opts...))
+			im = ltm(s.Parse(data, dest.Interface().(*string), opts...))
 		} else {
-			im = listToMap(s.Validate(dest.Interface().(*string), opts...))
+			im = ltm(s.Validate(dest.Interface().(*string), opts...))
 		}
 	case *z.NumberSchema[int]:
 		if c.Mode == "p" {
-			im = listToMap(s.Parse(data, dest.Interface().(*int), opts...))
+			im = ltm(s.Parse(data, dest.Interface().(*int), opts...))
 		} else {
-			im = listToMap(s.Validate(dest.Interface().(*int), opts...))
+			im = ltm(s.Validate(dest.Interface().(*int), opts...))
 		}
 	case *z.NumberSchema[int32]:
 		if c.Mode == "p" {
-			im = listToMap(s.Parse(data, dest.Interface().(*int32), opts...))
+			im = ltm(s.Parse(data, dest.Interface().(*int32), opts...))
 		} else {
-			im = listToMap(s.Validate(dest.Interface().(*int32), opts...))
+			im = ltm(s.Validate(dest.Interface().(*int32), opts...))
 		}
 	case *z.NumberSchema[int64]:
 		if c.Mode == "p" {
-			im = listToMap(s.Parse(data, dest.Interface().(*int64), opts...))
+			im = ltm(s.Parse(data, dest.Interface().(*int64), opts...))
 		} else {
-			im = listToMap(s.Validate(dest.Interface().(*int64), opts...))
+			im = ltm(s.Validate(dest.Interface().(*int64), opts...))
 		}
 	case *z.NumberSchema[float64]:
 		if c.Mode == "p" {
-			im = listToMap(s.Parse(data, dest.Interface().(*float64), opts...))
+			im = ltm(s.Parse(data, dest.Interface().(*float64), opts...))
 		} else {
-			im = listToMap(s.Validate(dest.Interface().(*float64), opts...))
+			im = ltm(s.Validate(dest.Interface().(*float64), opts...))
 		}
 	case *z.NumberSchema[float32]:
 		if c.Mode == "p" {
-			im = listToMap(s.Parse(data, dest.Interface().(*float32), opts...))
+			im = ltm(s.Parse(data, dest.Interface().(*float32), opts...))
 		} else {
-			im = listToMap(s.Validate(dest.Interface().(*float32), opts...))
+			im = ltm(s.Validate(dest.Interface().(*float32), opts...))
 		}
 	case *z.BoolSchema[bool]:
 		if c.Mode == "p" {
-			im = listToMap(s.Parse(data, dest.Interface().(*bool), opts...))
+			im = ltm(s.Parse(data, dest.Interface().(*bool), opts...))
 		} else {
-			im = listToMap(s.Validate(dest.Interface().(*bool), opts...))
+			im = ltm(s.Validate(dest.Interface().(*bool), opts...))
 		}
 	case *z.TimeSchema:
 		if c.Mode == "p" {
-			im = listToMap(s.Parse(data, dest.Interface().(*time.Time), opts...))
+			im = ltm(s.Parse(data, dest.Interface().(*time.Time), opts...))
 		} else {
-			im = listToMap(s.Validate(dest.Interface().(*time.Time), opts...))
+			im = ltm(s.Validate(dest.Interface().(*time.Time), opts...))
 		}
 	case *z.Custom[int]:
 		if c.Mode == "p" {
-			im = listToMap(s.Parse(data, dest.Interface().(*int), opts...))
+			im = ltm(s.Parse(data, dest.Interface().(*int), opts...))
 		} else {
-			im = listToMap(s.Validate(dest.Interface().(*int), opts...))
+			im = ltm(s.Validate(dest.Interface().(*int), opts...))
 		}
 	case *z.Custom[string]:
 		if c.Mode == "p" {
-			im = listToMap(s.Parse(data, dest.Interface().(*string), opts...))
+			im = ltm(s.Parse(data, dest.Interface().(*string), opts...))
 		} else {
-			im = listToMap(s.Validate(dest.Interface().(*string), opts...))
+			im = ltm(s.Validate(dest.Interface().(*string), opts...))
 		}
 	default:
 		panic(fmt.Sprintf("Run: unsupported top-level schema %T", schema))
 	}
 	res.Issues = im
+	if res.RawMap == nil {
+		res.RawList = rawList
+	}
+	res.CtxLeak = rec.CtxLeak
 	res.Dest = DOf(c.Schema, dest.Elem())
 	res.Events = rec.Events
 	res.Order = rec.Order
 	return res
 }
 
-func identityFacts(m z.ZogIssueMap) (distinct int, firstAliased bool) {
+func identityFacts(m z.ZogIssueMap) (distinct int, firstAliased bool, total int) {
 	seen := map[*z.ZogIssue]bool{}
 	n := 0
 	for k, l := range m {
@@ -286,7 +305,7 @@ func identityFacts(m z.ZogIssueMap) (distinct int, firstAliased bool) {
 	if f := m["$first"]; len(f) == 1 {
 		firstAliased = seen[f[0]]
 	}
-	return len(seen), firstAliased
+	return len(seen), firstAliased, n
 }
 
 // Line renders the case for the Lean driver, with the visit orders observed on the real run.
@@ -351,7 +370,6 @@ func noteInputDisplays(v V, ext *Ext) {
 	}
 }
 
-
 // RunBuilt executes a case on an already built schema.
 func RunBuilt(schema z.ZogSchema, c *Case, rec *Recorder) *Result {
 	var data any
@@ -362,7 +380,6 @@ func RunBuilt(schema z.ZogSchema, c *Case, rec *Recorder) *Result {
 }
 
 func NoteInput(v V, ext *Ext) { noteInputDisplays(v, ext) }
-
 
 // RunBuiltData executes a Parse case on an already built schema with explicit input data
 // (a data-provider factory such as zhttp.Request / zjson.Decode).
@@ -375,4 +392,14 @@ func SentinelZero(n *Node) D {
 		return ZeroD(n)
 	}
 	return sentinelZero(n)
+}
+
+// RunBuiltQuiet executes a case on a shared, already built schema without installing the visit-order
+// hook and without a shared recorder (safe to call from many goroutines).
+func RunBuiltQuiet(schema z.ZogSchema, c *Case) *Result {
+	var data any
+	if c.Mode == "p" {
+		data = c.Input.Go()
+	}
+	return runOnOpt(schema, c, NewRecorder(), data, false)
 }
